@@ -190,6 +190,22 @@ func (c *Collection) Update(id string, nu *linkedca.Admin) (*linkedca.Admin, err
 		return nil, admin.NewError(admin.ErrorBadRequestType, "cannot change role of last super admin")
 	}
 
+	// Keep the super admin counters in sync with the new role.
+	prov, ok := c.provisioners.Load(adm.ProvisionerId)
+	if !ok {
+		return nil, admin.NewError(admin.ErrorNotFoundType,
+			"provisioner %s for admin %s not found", adm.ProvisionerId, id)
+	}
+	provName := prov.GetName()
+	if adm.Type == linkedca.Admin_SUPER_ADMIN {
+		c.superCount--
+		c.superCountByProvisioner[provName]--
+	}
+	if nu.Type == linkedca.Admin_SUPER_ADMIN {
+		c.superCount++
+		c.superCountByProvisioner[provName]++
+	}
+
 	adm.Type = nu.Type
 	return adm, nil
 }
